@@ -1,12 +1,12 @@
 #!/bin/bash
-# sequential queue: lines "<seeded-id> <check> [<check>...]" in /tmp/seedflow.q ; for each: confirm (demo with/without +
+# sequential queue: lines "<seeded-id> <check> [<check>...]" in ${Q:-/tmp/seedflow.q} ; for each: confirm (demo with/without +
 # suite on a scratch worktree), then run the quick checks against it; outcomes appended to seeded/results.txt
-touch /tmp/seedflow.q /tmp/seedflow.done
+touch ${Q:-/tmp/seedflow.q} ${Q:-/tmp/seedflow.q}.done
 mkdir -p /tmp/mutkit
 while true; do
-  line=$(grep -vxFf /tmp/seedflow.done /tmp/seedflow.q | head -1)
+  line=$(grep -vxFf ${Q:-/tmp/seedflow.q}.done ${Q:-/tmp/seedflow.q} | head -1)
   if [ -z "$line" ]; then sleep 20; continue; fi
-  echo "$line" >> /tmp/seedflow.done
+  echo "$line" >> ${Q:-/tmp/seedflow.q}.done
   set -- $line; sid=$1
   cd /verif
   if [ ! -f seeded/$sid/confirm.log ]; then NPROC=${NPROC:-4} tools/confirm_seeded.sh $sid; fi
